@@ -140,6 +140,19 @@ func (m *C05Monitor) AfterPass(r *Runner, pv *PassView) error {
 		if read := lastRead[c.Key]; read != nil && (engine.RVOf(read) != engine.RVOf(c.Pre) || engine.UID(read) != engine.UID(c.Pre)) {
 			r.Labels["c05-changed-between-read-and-patch"] = true
 		}
+		// "objects owned by others are not touched": the co-owner cleanup (own reference + cache label) is only for
+		// objects the owner in teardown has a reference on
+		isOwner := false
+		for _, o := range OwnersOf(c.Pre, annot) {
+			if o.UID == ownerID.UID {
+				isOwner = true
+			}
+		}
+		if !isOwner {
+			r.Labels["c05-write-on-object-without-own-reference"] = true
+			return Violf("C05", "teardown-touched-object-of-others",
+				"pass %d: teardown of %s %s changed %s, on which it has no owner reference (owners %v): %s", pv.P.ID, ownerID.Kind, ownerID.Name, c.Key, OwnersOf(c.Pre, annot), trunc(diffSummary(c.Pre, c.Post), 300))
+		}
 		if !kubesim.JSONEqual(strippedForCompare(c.Pre), strippedForCompare(c.Post)) {
 			return Violf("C05", "teardown-modified-co-owned-object",
 				"pass %d: teardown of %s changed %s beyond its own owner reference and the cache label", pv.P.ID, ownerID.Name, c.Key)
